@@ -159,4 +159,11 @@ def tdTag (h : Nat) (required : Bool) : Nat := 2 * h + (if required then 1 else 
 
 def tdTagRequired (t : Nat) : Bool := t % 2 == 1
 
+/-- a de-duplication of a TypedDict member list that keeps the FIRST declaration of every key (what the
+code does NOT do; only used to state what goes wrong then:
+`Props/C05.lean: typedDict_keeping_first_declaration_loses_override`) -/
+def keepFirstGo (seen : List (List Char)) : List Dcg.Model.TypedDict.TdField → List Dcg.Model.TypedDict.TdField
+  | [] => []
+  | f :: fs => if seen.contains f.key then keepFirstGo seen fs else f :: keepFirstGo (f.key :: seen) fs
+
 end Dcg.Model.Field
